@@ -27,6 +27,7 @@ def run(ctx):
         ctx.guard("C11", "vis", lambda: vis.representation_private(ctx, prog))
         ctx.guard("C11", "validator", lambda: normal.validator_content(ctx, prog))
         ctx.guard("C11", "validator-outcomes", lambda: normal.validator_outcomes(ctx, prog))
+        ctx.guard("C11", "run-counters", lambda: normal.run_counters(ctx, prog, ("validator",)))
         ctx.guard("C11", "writers", lambda: tail.classify_writers(ctx, prog))
         ctx.guard("C11", "tail-n", lambda: tail.normalize_in_place(ctx, prog))
         ctx.guard("C11", "tail-c", lambda: tail.compress_expand(ctx, prog))
@@ -52,6 +53,7 @@ def run(ctx):
         ctx.guard("C11", "const values", lambda: data.const_census(ctx, prog, data.CONST_SCOPES["C11"], floor=1))
         ctx.guard("C11", "element-asserts", lambda: validate.element_range_asserts(ctx, prog))
         ctx.guard("C11", "normalize-step", lambda: normal.normalize_step(ctx, prog))
+        ctx.guard("C11", "initialisers", lambda: typestate.initialisers_complete(ctx, prog))
         ctx.guard("C11", "summaries", lambda: summary.check(ctx, prog, r'internals::(hash|hash_dual|compare|utils)::(?!.*(Windows|compare_easy))', floor=50))
         ctx.guard("C11", "generic consts", lambda: summary.check_consts(ctx, prog, floor=13))
         ctx.guard("C11", "path summaries", lambda: summary.check_paths(ctx, prog, r'internals::(hash|hash_dual|compare|utils)::(?!.*(Windows|compare_easy))', floor=39))
